@@ -416,6 +416,8 @@ func runC14(c *Ctx, r *Rec) {
 		}
 		viol, undec := conform(env, paths, spec)
 		switch {
+		case len(env.problems) == 0 && onlyForeign(undec):
+			r.skip("D1-len", c.fdName(fd), c.pos(fd.Pos()), strings.Join(undec, "; "))
 		case len(env.problems)+len(undec) > 0:
 			r.undecided("D1-len", c.fdName(fd), c.pos(fd.Pos()), strings.Join(append(env.problems, undec...), "; "))
 		case len(viol) > 0:
@@ -603,7 +605,7 @@ func runC14(c *Ctx, r *Rec) {
 			checkLoops(c, r, "D4-loop-progress", m[name], nil)
 		}
 	}
-	r.floor("D4-loop-progress", 1)
+	r.floorSoft("D4-loop-progress", "loops", "no loop is left in the methods this rule looks at")
 }
 
 // resolveInit follows single-definition local variables to their initialisers.
